@@ -35,7 +35,12 @@ class Layout:
             off += size + rng.choice([0, 0, 2])
         self.nvmsize = off + rng.choice([0, 4])
         self.nsub = ng if ng == 1 else ng + 1
+        # a gap in the sub-indices of 1010h/1011h (legal): the group behind the missing sub-index has no entry and takes part in nothing
+        self.gap = rng.randint(2, self.nsub - 1) if (ng >= 3 and rng.random() < 0.35) else None
         self.nvminit = gen.rand_bytes(rng, self.nvmsize)
+
+    def subs(self):
+        return [s_ for s_ in range(1, self.nsub + 1) if s_ != self.gap]
 
     def group_of(self, sub):
         if len(self.groups) == 1:
@@ -44,7 +49,7 @@ class Layout:
 
     def targets(self, sub):
         if len(self.groups) > 1 and sub == 1:
-            return list(range(len(self.groups)))
+            return [g_ for g_ in range(len(self.groups)) if self.gap is None or g_ != self.gap - 2]
         return [self.group_of(sub)]
 
     def config(self):
@@ -53,7 +58,7 @@ class Layout:
         for g, x in enumerate(self.groups):
             cfg.paras.append((g, x["off"], x["size"], x["type"], 1 if x["en"] else 0, x["def"] is not None, x["raminit"], x["def"]))
         cfg.add(var(0x1010, 0, D | R, 1, self.nsub, "parastore")); cfg.add(var(0x1011, 0, D | R, 1, self.nsub, "pararestore"))
-        for s in range(1, self.nsub + 1):
+        for s in self.subs():
             cfg.add(Obj(0x1010, s, RW, "parastore", "P", self.group_of(s)))
             cfg.add(Obj(0x1011, s, RW, "pararestore", "P", self.group_of(s)))
         cfg.nvm = (self.nvmsize, self.nvminit)
@@ -81,7 +86,7 @@ class PModel:
         err = False
         lay = self.lay
         for t in types:
-            for sub in range(1, lay.nsub + 1):
+            for sub in lay.subs():
                 g = lay.group_of(sub)
                 x = lay.groups[g]
                 if x["type"] == t:
@@ -134,13 +139,13 @@ def gen_script(rng, lay):
     for _ in range(rng.randint(3, 12)):
         x = rng.random()
         if x < 0.35:
-            ops.append(("store", rng.randint(1, lay.nsub), SAVE))
+            ops.append(("store", rng.choice(lay.subs()), SAVE))
         elif x < 0.45:
-            ops.append(("store", rng.randint(1, lay.nsub), rng.choice([0, 1, SAVE ^ 1, SAVE ^ 0x01000000, SAVE >> 8, LOAD, 0x73617665])))
+            ops.append(("store", rng.choice(lay.subs()), rng.choice([0, 1, SAVE ^ 1, SAVE ^ 0x01000000, SAVE >> 8, LOAD, 0x73617665])))
         elif x < 0.57:
-            ops.append(("restore", rng.randint(1, lay.nsub), LOAD))
+            ops.append(("restore", rng.choice(lay.subs()), LOAD))
         elif x < 0.62:
-            ops.append(("restore", rng.randint(1, lay.nsub), rng.choice([0, LOAD ^ 0x100, SAVE, 0x6C6F6164])))
+            ops.append(("restore", rng.choice(lay.subs()), rng.choice([0, LOAD ^ 0x100, SAVE, 0x6C6F6164])))
         elif x < 0.85:
             g = rng.randrange(len(lay.groups))
             ops.append(("ramset", g, gen.rand_bytes(rng, lay.groups[g]["size"])))
@@ -316,7 +321,7 @@ def selftest(ctx):
     m = PModel(lay)
     m.fault = ("w", 1, 1)
     m.fault_hit = False
-    sub = next(s for s in range(1, lay.nsub + 1) if lay.groups[lay.group_of(s)]["en"])
+    sub = next(s for s in lay.subs() if lay.groups[lay.group_of(s)]["en"])
     assert m.store(sub) == "abort" and m.fault_hit
 
 
